@@ -73,7 +73,7 @@ def list_properties(b, cwd):
 
 def cbmc_job(workdir, name, harness_file, entry, enforce=None, replace=(), loop_contracts=False, smt=True,
              timeout=60, extra_cbmc=(), extra_instr=(), own_prefixes=(), solvers=None, defines=(), nondet_static=True,
-             expect_canary=True, canary_timeout=30):
+             expect_canary=True, canary_timeout=30, split=False, split_workers=6):
     global _z3env
     r = JobResult(name)
     t0 = time.time()
@@ -111,6 +111,9 @@ def cbmc_job(workdir, name, harness_file, entry, enforce=None, replace=(), loop_
     prefixes = tuple(own_prefixes) or tuple(p for p in (enforce, entry) if p)
     if solvers is None:
         solvers = ['cvc5', 'z3', 'z3new'] if smt else ['sat']
+    if split:
+        return _split_solve(r, t0, workdir, name, b, props, main_ids, canary_ids, prefixes, solvers, extra_cbmc, timeout, smt,
+                            expect_canary, canary_timeout, cc, gi, split_workers)
     procs = []
     sel = []
     for p in main_ids:
@@ -258,6 +261,110 @@ def cbmc_job(workdir, name, harness_file, entry, enforce=None, replace=(), loop_
                 p_.stdout.read()
             except Exception:
                 pass
+        if r.canary == 'unreachable' and r.status == 'discharged':
+            r.status, r.detail = 'vacuous', 'canary unreachable: preconditions/axioms contradictory'
+    r.log = '\n'.join(logs)
+    r.seconds = time.time() - t0
+    return r
+
+
+def _solver_flag(sv):
+    global _z3env
+    if sv == 'cvc5':
+        return ['--cvc5'], None
+    if sv == 'z3':
+        return ['--z3'], None
+    if sv == 'z3new':
+        if _z3env is None:
+            _z3env = z3new_env() or False
+        if not _z3env:
+            return None, None
+        return ['--z3'], _z3env
+    return [], None
+
+
+def _split_solve(r, t0, workdir, name, b, props, main_ids, canary_ids, prefixes, solvers, extra_cbmc, timeout, smt,
+                 expect_canary, canary_timeout, cc, gi, workers):
+    """obligations are solved in separate cbmc runs (key obligations one by one, routine checks in chunks): one huge
+    all-properties query was found to time out where every obligation alone is decided in seconds"""
+    from concurrent.futures import ThreadPoolExecutor
+    key = [p for p in main_ids if re.search(r'\.(postcondition|loop_invariant_step|loop_invariant_base|precondition|assertion)\.', p)]
+    rest = [p for p in main_ids if p not in key]
+    chunks = [[p] for p in key] + [rest[i:i + 12] for i in range(0, len(rest), 12)]
+    desc = dict(props)
+    r.cmd = ' '.join(cc) + ' && ' + ' '.join(gi) + ' && cbmc --%s --property <one obligation or chunk> %s   (split mode)' % ('|'.join(solvers), os.path.basename(b))
+    logs = []
+
+    def solve(chunk):
+        sel = []
+        for p in chunk:
+            sel += ['--property', p]
+        last = 'undecided'
+        for sv in solvers:
+            flag, env = _solver_flag(sv)
+            if flag is None:
+                continue
+            rc, o, s_, to = run(['cbmc'] + flag + list(extra_cbmc) + sel + [b], cwd=workdir, timeout=timeout, env=env)
+            if to:
+                last = 'timeout'
+                continue
+            res = [x for x in parse_cbmc(o) if x[0] in chunk]
+            if len(res) == len(chunk) and all(x[2] in ('SUCCESS', 'FAILURE') for x in res) and not any(b_ in o for b_ in BAD_LOG):
+                return sv, res, None
+            last = 'solver error/unknown'
+            logs.append('--- %s on %s\n%s' % (sv, chunk[0], o[-1500:]))
+        return None, [(p, desc.get(p, ''), 'UNKNOWN') for p in chunk], last
+
+    cproc = None
+    if expect_canary and canary_ids:
+        cfile = os.path.join(workdir, name + '.canary.smt2')
+        run(['cbmc', '--z3' if 'cvc5' not in solvers else '--cvc5', '--outfile', cfile] + list(extra_cbmc) + ['--property', canary_ids[0], b], cwd=workdir, timeout=120)
+    with ThreadPoolExecutor(max_workers=workers) as ex:
+        outs = list(ex.map(solve, chunks))
+        retry = [[p] for (sv, res, why), ch in zip(outs, chunks) if sv is None and len(ch) > 1 for p in ch]
+        if retry:
+            outs = [o_ for o_, ch in zip(outs, chunks) if not (o_[0] is None and len(ch) > 1)] + list(ex.map(solve, retry))
+    allres, backends, undec = [], set(), []
+    for sv, res, why in outs:
+        allres += res
+        if sv:
+            backends.add(sv)
+        else:
+            undec.append('%s (%s)' % (res[0][0], why))
+    own = [x for x in allres if x[0].startswith(prefixes)]
+    lib = [x for x in allres if x not in own]
+    r.obligations, r.library_checks, r.backend = own, len(lib), '+'.join(sorted(backends)) or None
+    r.failed = [x[0] for x in allres if x[2] == 'FAILURE']
+    if r.failed:
+        r.status, r.detail = 'refuted', ','.join(r.failed)
+    elif undec:
+        r.status, r.detail = 'undecided', 'no answer for: ' + '; '.join(undec[:5])
+    elif not own:
+        r.status, r.detail = 'vacuous', 'no obligations generated'
+    else:
+        r.status, r.detail = 'discharged', ''
+    # canary through the raw solvers
+    if expect_canary and canary_ids:
+        r.canary = 'undecided'
+        cfile = os.path.join(workdir, name + '.canary.smt2')
+        if os.path.exists(cfile):
+            cps = [(sv_, _popen([sv_, cfile], workdir)) for sv_ in ('z3', 'z3-new', 'cvc5') if shutil.which(sv_)]
+            cdead = time.time() + canary_timeout
+            while cps and time.time() < cdead and r.canary == 'undecided':
+                for sv_, p_ in list(cps):
+                    if p_.poll() is None:
+                        continue
+                    cps.remove((sv_, p_))
+                    o = p_.stdout.read().decode('utf-8', 'replace')
+                    first = o.strip().splitlines()[0].strip() if o.strip() else ''
+                    if first == 'sat':
+                        r.canary = 'reachable'
+                    elif first == 'unsat':
+                        r.canary = 'unreachable'
+                if r.canary == 'undecided' and cps:
+                    time.sleep(0.05)
+            for sv_, p_ in cps:
+                _kill(p_)
         if r.canary == 'unreachable' and r.status == 'discharged':
             r.status, r.detail = 'vacuous', 'canary unreachable: preconditions/axioms contradictory'
     r.log = '\n'.join(logs)
